@@ -96,13 +96,18 @@ func (is *indexSearch) getTSIDBySeriesKey(indexkey []byte) (uint64, error) {
 	kb.B = append(kb.B, indexkey...)
 	kb.B = append(kb.B, kvSeparatorChar)
 	ts.Seek(kb.B)
-	if ts.NextItem() {
+	for ts.NextItem() {
 		if !bytes.HasPrefix(ts.Item, kb.B) {
 			// Nothing found.
 			return 0, io.EOF
 		}
 		v := ts.Item[len(kb.B):]
 		pid := encoding.UnmarshalUint64(v)
+		// A series that was deleted and written again has one item per incarnation:
+		// skip the deleted ones, otherwise the live id is never found again.
+		if is.deleted != nil && is.deleted.Has(pid) {
+			continue
+		}
 
 		// Found valid dst.
 		return pid, nil
@@ -1330,6 +1335,7 @@ func (is *indexSearch) updateTSIDsByOrSuffixes(tf *tagFilter) (*uint64set.Set, e
 			return tsids, err
 		}
 	}
+	tsids.Subtract(is.deleted)
 	return tsids, nil
 }
 
@@ -1565,6 +1571,7 @@ func (is *indexSearch) seriesCount(name []byte) (uint64, error) {
 func (is *indexSearch) getSeriesCount(prefix []byte) (uint64, error) {
 	ts := &is.ts
 	mp := &is.mp
+	deleted := is.idx.GetDeletedTSIDs()
 	ts.Seek(prefix)
 	var seriesCount uint64
 	for ts.NextItem() {
@@ -1582,7 +1589,17 @@ func (is *indexSearch) getSeriesCount(prefix []byte) (uint64, error) {
 		if err := mp.InitOnlyTail(item, tail); err != nil {
 			return 0, err
 		}
-		seriesCount += uint64(mp.TSIDsLen())
+		if deleted.Len() == 0 {
+			seriesCount += uint64(mp.TSIDsLen())
+			continue
+		}
+		// deleted series are not counted
+		mp.ParseTSIDs()
+		for _, tsid := range mp.TSIDs {
+			if !deleted.Has(tsid) {
+				seriesCount++
+			}
+		}
 	}
 	return seriesCount, nil
 }
@@ -1600,7 +1617,8 @@ func (is *indexSearch) updateTSIDsForPrefix(prefix []byte, tsids *uint64set.Set,
 	for ts.NextItem() {
 		item := ts.Item
 		if !bytes.HasPrefix(item, prefix) {
-			return nil
+			// past the prefix: stop scanning, the deleted tsids are subtracted below
+			break
 		}
 		tail := item[len(prefix):]
 		for i := 0; i < tagSeps; i++ {
